@@ -18,6 +18,9 @@ def dispatch (op : String) (args : List String) : String :=
   | "e1.dec" => Driver.Bls.e1Dec args
   | "e2.dec" => Driver.Bls.e2Dec args
   | "pk.of" => Driver.Bls.pkOf args
+  | "h2c.map" => Driver.Bls.h2cMap args
+  | "bls.signmsg" => Driver.Bls.signMsg args
+  | "pop.gen" => Driver.Bls.popGen args
   | "pk.zcash" => Driver.Bls.pkZcash args
   | "sig.expect" => Driver.Bls.sigExpect args
   | "bls.verify" => Driver.Bls.blsVerify args
